@@ -175,7 +175,9 @@ def conventional(cmd):
     for a in cmd["args"]:
         if not set(k for k, v in a.items() if v not in (None, [], set(), False)) <= ALLOWED_ARG_KEYS:
             return False
-        if a["flags"] or a["difs"] or a["requires_if"] or a["r_if"] or a["r_if_all"] or a.get("groups"):
+        # `required` changes which lines are accepted, not what an accepted line means (an overridden required flag is
+        # excused by the implicit conflict and must still report the action's default; seeded change seed2/C07-3)
+        if (a["flags"] - {"required"}) or a["difs"] or a["requires_if"] or a["r_if"] or a["r_if_all"] or a.get("groups"):
             return False
         if action_of(a) not in ("set", "append", "count", "settrue", "setfalse"):
             return False
@@ -725,7 +727,8 @@ def gen_pairs(rng, mode="parse", stats=None):
             for direction in ("a->b", "b->a", "both"):
                 for self_a in (False, True):
                     for pat in PAIR_PATTERNS:
-                        a = {"id": b"a", "flags": set(), "short": "a", "long": b"alpha", "action": aa}
+                        a = {"id": b"a", "flags": {"required"} if chance(rng, 0.25) else set(), "short": "a", "long": b"alpha",
+                             "action": aa}
                         b = {"id": b"b", "flags": set(), "short": "b", "long": b"beta", "action": ab}
                         third = {"id": b"c", "flags": set(), "short": "c", "action": "count"}
                         if direction in ("a->b", "both"):
